@@ -459,9 +459,22 @@ package vuego
 //@   loop 1 invariant frame.locals: (len(newAttrs) == 0 || fresh(newAttrs)) && fresh(results) && results != nil
 //@   loop 2 invariant frame.locals: (len(newAttrs) == 0 || fresh(newAttrs)) && fresh(results) && results != nil
 //@   loop 3 invariant frame.locals: (len(newAttrs) == 0 || fresh(newAttrs)) && fresh(results) && results != nil
+// style declarations: "k: v" split at the FIRST colon (values may contain colons, e.g. url(http://…))
+//@ spec func declOK(p string) bool { contains(trimSpace(p), ":") }
+//@ spec func declKey(p string) string { trimSpace(trimSpace(p)[:indexOf(trimSpace(p), ":")]) }
+//@ spec func declVal(p string) string { trimSpace(trimSpace(p)[indexOf(trimSpace(p), ":") + 1:]) }
+//@ spec func styleIdx(parts []string, k string, i int) int decreases i {
+//@   i <= 0 ? 0 - 1 : ((declOK(parts[i-1]) && declKey(parts[i-1]) == k) ? i - 1 : styleIdx(parts, k, i - 1)) }
 //@ func parseStyleMap(style) (r)
 //@   modifies nothing
 //@   ensures fresh(r) && r != nil
+//@   ensures C14.style.parse.empty: style == "" ==> forall k string :: !(k in r)
+//@   ensures C14.style.parse: style != "" ==> forall k string ::
+//@     ((k in r) == (styleIdx(splitParts(style, ";"), k, len(splitParts(style, ";"))) >= 0)) &&
+//@     ((k in r) ==> r[k] == declVal(splitParts(style, ";")[styleIdx(splitParts(style, ";"), k, len(splitParts(style, ";")))]))
+//@   loop 0 invariant bounds: 0 <= $i && $i <= len(parts) && fresh(result) && result != nil && parts == splitParts(style, ";")
+//@   loop 0 invariant C14.style.scan: forall k string :: ((k in result) == (styleIdx(parts, k, $i) >= 0)) &&
+//@     ((k in result) ==> result[k] == declVal(parts[styleIdx(parts, k, $i)]))
 //@ func parseStyleString(style) (r)
 //@   modifies nothing
 //@   ensures fresh(r) && r != nil
